@@ -252,7 +252,7 @@ PROPS["C11"] = dict(
              "'decoding garbage never panics' is a statement about ciborium: observed on the malformed stream (clause 104)"],
     trusted_base=TB_COMMON + ["serde-derive's layout and ciborium's encoder are re-implemented in Serde.v and compared byte for byte with to_bytes on every case"],
     assumptions=["integers are i128; lengths below 2^64"],
-    check_names={101: "decode(encode t) has the same canonical form as t", 102: "same reported parameters and queries",
+    check_names={131: "decoding a nested input kills the process (stack exhaustion) instead of returning an error", 132: "nesting-bomb control", 101: "decode(encode t) has the same canonical form as t", 102: "same reported parameters and queries",
                  103: "identical application gives the same transaction", 104: "decoding malformed bytes panicked or aborted",
                  105: "an unknown or retired version was not refused"},
 )
@@ -295,4 +295,20 @@ PROPS["C18"] = dict(
     trusted_base=FRONT_TB, assumptions=["distinct field names per directive (the IR type is a map)"],
     keep_ids=_only(lambda i: i in (1, 2, 3) or 180 <= i < 190),
     check_names={181: "repeated lowering + encoding of one source gives different bytes", 182: "the TII file differs between processes"},
+)
+
+PROPS["C01"] = dict(
+    level="proof", runner="C01",
+    model_files=FRONT_MODEL + ["PlutusData.v", "Interop.v", "Compile.v", "Denote.v"], proof_files=["C01_proofs.v"], check_files=["Compile_check.v", "C01_check.v"],
+    theorems=["C01_integer_arithmetic_exact", "C01_subtraction_associates_left"],
+    partial=["the unbounded theorem covers closed integer arithmetic; for the rest of the core (multi-asset arithmetic, names by context, records with spread, property access, mint/burn, validity, references, collateral, metadata) 'pipeline = denotation' is evaluated per generated program: the implementation's decoded transaction against Denote.v (clauses 101-108, 110), and against the composition of the stage models (clauses 1-4)",
+             "the pest parser is not modelled: it is tied by printing the generator's tree in two layouts and comparing what the implementation builds from the text",
+             "outputs whose denoted amount is negative or beyond the field's range are C02's recorded findings and are skipped by clause 102; which UTxO of a multi-UTxO script input carries the redeemer is C08's (F08-2)"],
+    trusted_base=FRONT_TB + COMPILE_TB[3:],
+    assumptions=["parameters of the types an argument map can carry (Int, Bool, Bytes, Address, UtxoRef)", "one resolution pass with a given fee (convergence is C05)", "min_utxo is exercised by C05/C20, not here"],
+    check_names={1: "lowering outcome kind agrees with the model", 2: "lowered IR agrees", 3: "pipeline outcome kind agrees", 4: "decoded transaction = model pipeline's transaction",
+                 101: "inputs are the UTxOs assigned to the input blocks", 102: "outputs (address, lovelace, native assets, inline datum; order) are what the source denotes",
+                 103: "mint field = mints - burns as denoted", 104: "validity interval", 105: "reference inputs", 106: "collateral inputs", 107: "metadata", 108: "fee",
+                 110: "the implementation built a transaction for a program the semantics gives no meaning to",
+                 161: "another white-space / comment layout of the same program gives different transaction bytes"},
 )
